@@ -2,6 +2,9 @@
 package main
 
 import (
+	"gopkg.in/typ.v4"
+	"gopkg.in/typ.v4/avl"
+	"math"
 	"sort"
 	"verif/lib/enum"
 
@@ -103,6 +106,22 @@ func main() {
 		if _, msg := avlh.ClearReuse(n, false, tr); msg != "" {
 			r.Report(ev.Violation{Sig: "family|clear-reuse", Msg: msg, Replay: map[string]any{"family": "clear-reuse", "n": n}})
 		}
+	}
+	// NewOrdered over the extremes of the ordered element types, every insertion order of 5 boundary
+	// values (a comparator computed by subtraction overflows when two values are 2^63 apart)
+	{
+		cases := 0
+		orderedExtremes("int", []int{math.MinInt, -2, 0, 3, math.MaxInt}, &cases, r)
+		orderedExtremes("int64", []int64{math.MinInt64, -2, 0, 3, math.MaxInt64}, &cases, r)
+		orderedExtremes("int32", []int32{math.MinInt32, -2, 0, 3, math.MaxInt32}, &cases, r)
+		orderedExtremes("int8", []int8{math.MinInt8, -2, 0, 3, math.MaxInt8}, &cases, r)
+		orderedExtremes("uint64", []uint64{0, 1, 1 << 63, 1<<63 + 1, math.MaxUint64}, &cases, r)
+		orderedExtremes("uint8", []uint8{0, 1, 127, 128, 255}, &cases, r)
+		orderedExtremes("uintptr", []uintptr{0, 1, 1 << 63, 1<<63 + 1, math.MaxUint64}, &cases, r)
+		orderedExtremes("float64", []float64{math.Inf(-1), -math.MaxFloat64, 0, math.SmallestNonzeroFloat64, math.Inf(1)}, &cases, r)
+		orderedExtremes("float32", []float32{float32(math.Inf(-1)), -math.MaxFloat32, 0, math.SmallestNonzeroFloat32, float32(math.Inf(1))}, &cases, r)
+		orderedExtremes("string", []string{"", "\x00", "a", "a\x00", "\xff\xff"}, &cases, r)
+		r.Set("ordered_extremes_family_cases", cases)
 	}
 	// an answer remembered across exactly 2^k changes (every observer, both flip directions)
 	for _, present := range []bool{false, true} {
@@ -256,4 +275,61 @@ func family(n, mod int, ins, del string, calls *int) string {
 		}
 	}
 	return ""
+}
+
+// orderedExtremes: vals is strictly ascending; every permutation is inserted into an avl.NewOrdered tree,
+// with one value twice, and one value removed afterwards.
+func orderedExtremes[T typ.Ordered](tname string, vals []T, cases *int, r *ev.Run) {
+	n := len(vals)
+	perm := make([]int, n)
+	for i := range perm {
+		perm[i] = i
+	}
+	var rec func(k int)
+	failed := false
+	rec = func(k int) {
+		if failed {
+			return
+		}
+		if k == n {
+			t := avl.NewOrdered[T]()
+			for _, i := range perm {
+				t.Add(vals[i])
+			}
+			t.Add(vals[perm[0]])
+			*cases++
+			want := append([]T{}, vals...)
+			want = append(want[:perm[0]+1], want[perm[0]:]...)
+			got := t.SliceInOrder()
+			ok := len(got) == len(want) && t.Len() == len(want)
+			for i := 0; ok && i < len(want); i++ {
+				ok = got[i] == want[i]
+			}
+			for _, v := range vals {
+				ok = ok && t.Contains(v)
+			}
+			if ok {
+				rm := vals[perm[n-1]]
+				ok = t.Remove(rm) && t.Len() == n
+				if rm != vals[perm[0]] {
+					ok = ok && !t.Contains(rm)
+				}
+			}
+			if !ok {
+				failed = true
+				order := make([]T, n)
+				for j, i := range perm {
+					order[j] = vals[i]
+				}
+				r.Report(ev.Violation{Sig: "family|ordered-extremes", Msg: fmt.Sprintf("avl.NewOrdered[%s]: values added in the order %v (the first one twice): in-order %v, want %v (then Remove/Contains/Len)", tname, order, got, want), Replay: map[string]any{"family": "ordered-extremes", "type": tname, "order": fmt.Sprint(order)}})
+			}
+			return
+		}
+		for i := k; i < n; i++ {
+			perm[k], perm[i] = perm[i], perm[k]
+			rec(k + 1)
+			perm[k], perm[i] = perm[i], perm[k]
+		}
+	}
+	rec(0)
 }
